@@ -40,6 +40,10 @@ pub enum UStep {
     Burst(#[serde(with = "hexvec")] Vec<Vec<u8>>),
     /// the application writes this packet (given as its canonical frame)
     Write(#[serde(with = "hex")] Vec<u8>),
+    /// the application reads while nothing is queued: the socket's (short) read timeout makes
+    /// the adaptor's receive fail with a transient error; later datagrams must be unaffected
+    /// (blocking adaptor only)
+    IdleRead,
 }
 
 #[derive(Serialize, Deserialize, Clone, Debug, PartialEq, Eq)]
@@ -59,6 +63,7 @@ enum UEv {
     Read { res: AppRes },
     Wrote { res: AppRes },
     PeerGot { dgram: String },
+    Idle { res: AppRes },
 }
 
 struct UdpRun {
@@ -99,7 +104,10 @@ fn run_udp(sc: &UdpSc) -> UdpRun {
     }
     match sc.imp {
         Imp::Blocking => {
-            let _ = conn.set_read_timeout(Some(OP_TIMEOUT));
+            let idle = sc.steps.iter().any(|s| matches!(s, UStep::IdleRead));
+            // with IdleRead steps the socket gets a short timeout; reads with a datagram already
+            // queued never wait, so this cannot affect them
+            let _ = conn.set_read_timeout(Some(if idle { Duration::from_millis(25) } else { OP_TIMEOUT }));
             let _ = conn.set_write_timeout(Some(OP_TIMEOUT));
             let mut framed = insim::net::blocking_impl::Framed::new(
                 Box::new(insim::net::blocking_impl::UdpStream::from(conn)),
@@ -128,6 +136,16 @@ fn run_udp(sc: &UdpSc) -> UdpRun {
                                 return UdpRun { events, harness_error: None };
                             }
                         }
+                    },
+                    UStep::IdleRead => {
+                        let r = guarded(|| framed.read());
+                        let res = match r {
+                            Err(p) => AppRes::Other(format!("panic: {}", p)),
+                            Ok(Ok(p)) => AppRes::Pkt(format!("{:?}", p)),
+                            Ok(Err(e)) => AppRes::from_err(&e),
+                        };
+                        events.push(UEv::Idle { res });
+                        drain_peer(&peer, &mut events);
                     },
                     UStep::Write(f) => {
                         let Some(p) = ref_decode_packet(sc.mode, f).1 else { continue };
@@ -173,6 +191,7 @@ fn run_udp(sc: &UdpSc) -> UdpRun {
                                 }
                             }
                         },
+                        UStep::IdleRead => {},
                         UStep::Write(f) => {
                             let Some(p) = ref_decode_packet(sc.mode, f).1 else { continue };
                             let res = match tokio::time::timeout(OP_TIMEOUT, framed.write(p)).await {
@@ -273,6 +292,7 @@ impl Prop for C08 {
             None
         };
         let max_frames = *rng.pick(&[1usize, 1, 2, 4, 16, 64]);
+        let idle_reads = rng.chance(1, 3);
         let mut steps = Vec::new();
         let mut sent = 0usize;
         let mut notes = Vec::new();
@@ -315,6 +335,9 @@ impl Prop for C08 {
             }
             if rng.chance(1, 12) {
                 steps.push(UStep::Write(gen::gen_out_frame(rng, mode, stats)));
+            }
+            if idle_reads && imp == Imp::Blocking && rng.chance(1, 30) {
+                steps.push(UStep::IdleRead);
             }
         }
         // sentinel: anything duplicated or left over shows up before it
@@ -447,6 +470,27 @@ impl Prop for C08 {
                         rep.probe("keepalive_over_udp");
                     }
                 },
+                UStep::IdleRead => {
+                    if sc.imp != Imp::Blocking {
+                        continue;
+                    }
+                    match next(&mut ev_i) {
+                        Some(UEv::Idle { res }) => {
+                            rep.fault("recv_timeout_error");
+                            h.write(res.class().as_bytes());
+                            if !matches!(res, AppRes::Io { .. }) {
+                                rep.violations.push(v("udp.idle_read", format!("{} a read with nothing queued returned {:?} instead of the socket's timeout error", tag, res)));
+                                break 'steps;
+                            }
+                        },
+                        _ => break 'steps,
+                    }
+                    // nothing may have been sent to the peer
+                    if let Some(UEv::PeerGot { dgram }) = evs.get(ev_i) {
+                        rep.violations.push(v("udp.unsolicited_datagram", format!("{} the peer received {} during an idle read", tag, dgram)));
+                        break 'steps;
+                    }
+                },
                 UStep::Write(f) => {
                     let Some(p) = ref_decode_packet(sc.mode, f).1 else { continue };
                     let Ok(exp) = ref_encode(sc.mode, &p) else { continue };
@@ -563,7 +607,7 @@ impl Prop for C08 {
             "kernel loopback UDP preserves order and neither drops nor blocks with <= 8 datagrams (<= 8 KiB) in flight; delivery is complete when send() returns".into(),
             "real time is used in this world: every library call is guarded by a 3 s wall-clock bound (expected latency ~50 us); expiry is reported as a failed read".into(),
             "the schedule inside the kernel is not controlled, only made irrelevant to the observable outcome by lock-step driving from one thread".into(),
-            "write-side back-pressure (WouldBlock) of the adaptors is not reachable here".into(),
+            "write-side back-pressure (WouldBlock) of the adaptors is not reachable here; the only transport error injected is the blocking socket's own read timeout (25 ms) on reads issued while nothing is queued".into(),
         ]
     }
     fn components(&self) -> Value {
@@ -582,6 +626,7 @@ impl Prop for C08 {
             "keepalive_over_udp",
             "udp_write",
             "datagram_loss_dup_or_reorder",
+            "recv_timeout_error",
             "blocking_runs",
             "tokio_runs",
         ]
